@@ -4,6 +4,7 @@ import (
 	"fmt"
 	"go/token"
 	"go/types"
+	"strings"
 
 	"golang.org/x/tools/go/ssa"
 )
@@ -114,7 +115,7 @@ func c17Forwarder(c *Check) {
 		if RetNil(r, len(r.Results)-1) {
 			continue
 		}
-		c.Report(GuardedBy(fn, r, append(append([]Edge{}, uwFail...), pubFail...)), P+".O1", "RELAY-FAILS-ONLY-ON-FAULT", fn, r.Pos(), fmt.Sprintf("return#%d", i), "the forwarder refuses a message (⇒ Nack, redelivery) only when it could not be unwrapped or the destination Publish failed — not because of what the envelope says (e.g. its destination topic)")
+		c.Report(GuardedBy(fn, r, append(append([]Edge{}, uwFail...), pubFail...)) || isTailOf(r.Results[len(r.Results)-1], ResultOfAny(pubs, 0)), P+".O1", "RELAY-FAILS-ONLY-ON-FAULT", fn, r.Pos(), fmt.Sprintf("return#%d", i), "the forwarder refuses a message (⇒ Nack, redelivery) only when it could not be unwrapped or the destination Publish failed — not because of what the envelope says (e.g. its destination topic)")
 	}
 	// on the unwrap-error edge the option alone decides: with AckWhenCannotUnwrap set every non-envelope is acked, whatever
 	// made it a non-envelope (undecodable bytes, JSON of another shape, an empty destination)
@@ -173,11 +174,38 @@ func c17Forwarder(c *Check) {
 func tailReturns(fn *ssa.Function, isRes func(ssa.Value) bool) int {
 	n := 0
 	for _, r := range Returns(fn) {
-		if len(r.Results) > 0 && AllOrigins(r.Results[len(r.Results)-1], isRes) {
+		if len(r.Results) > 0 && isTailOf(r.Results[len(r.Results)-1], isRes) {
 			n++
 		}
 	}
 	return n
+}
+
+// isTailOf: v is the result itself, or a pkg/errors wrap of it (Wrap, Wrapf, WithStack, WithMessage[f] answer nil for
+// a nil error and a non-nil error otherwise): returning it is returning "nil iff the call succeeded".
+func isTailOf(v ssa.Value, isRes func(ssa.Value) bool) bool {
+	return AllOrigins(v, func(o ssa.Value) bool {
+		for d := 0; d < 4; d++ {
+			if isRes(o) {
+				return true
+			}
+			cl, ok := o.(*ssa.Call)
+			if !ok || len(cl.Call.Args) == 0 {
+				return false
+			}
+			switch CalleeName(cl) {
+			case "github.com/pkg/errors.Wrap", "github.com/pkg/errors.Wrapf", "github.com/pkg/errors.WithStack", "github.com/pkg/errors.WithMessage", "github.com/pkg/errors.WithMessagef":
+				os := Origins(cl.Call.Args[0])
+				if len(os) != 1 {
+					return false
+				}
+				o = os[0]
+			default:
+				return false
+			}
+		}
+		return false
+	})
 }
 
 // relayReturns checks the nil/non-nil discipline of a relay handler's returns.
@@ -507,7 +535,27 @@ func c17Requeuer(c *Check) {
 		}
 		nset++
 		rf := LoadedField(firstOrigin(Receiver(s)))
-		c.Report(rf != nil && rf.Exported() && rf.Name() == "Metadata", P+".O3", "RETRIES-ON-MESSAGE", fn, s.Pos(), "Set(RetriesKey)", "the counter is written to the consumed message's metadata")
+		onConsumed := false
+		if u, isU := firstOrigin(Receiver(s)).(*ssa.UnOp); isU {
+			if _, base := FieldOf(u.X); base != nil && FromParam(msg)(base) {
+				onConsumed = true
+			}
+		}
+		// … of the very message that is published: the consumed message itself, or the object handed to Publish
+		if !onConsumed {
+			if u, isU := firstOrigin(Receiver(s)).(*ssa.UnOp); isU {
+				if _, base := FieldOf(u.X); base != nil {
+					for _, pb := range pubs {
+						for _, el := range VariadicElems(Arg(pb, 1)) {
+							if sameValue(el, base) {
+								onConsumed = true
+							}
+						}
+					}
+				}
+			}
+		}
+		c.Report(rf != nil && rf.Exported() && rf.Name() == "Metadata" && onConsumed, P+".O3", "RETRIES-ON-MESSAGE", fn, s.Pos(), "Set(RetriesKey)", "the counter is written to the metadata of the message that is requeued (the consumed message, which is what gets published)")
 		okFmt, num := decimalOf(firstOrigin(Arg(s, 1)))
 		okInc := false
 		if okFmt {
@@ -674,6 +722,9 @@ func c17FanIn(c *Check) {
 		c.Report(AllOrigins(Arg(ad, 3), exportedFieldLoad("TargetTopic")), P+".O2", "FANIN-TARGET", fn, ad.Pos(), "AddHandler", "every handler publishes to config.TargetTopic")
 		c.Report(len(subs) == 1 && FromParam(subs[0])(Arg(ad, 2)) && len(pubs) == 1 && FromParam(pubs[0])(Arg(ad, 4)), P+".O2", "FANIN-PUBSUB", fn, ad.Pos(), "AddHandler", "the given subscriber and publisher are used")
 		h := FuncOfValue(firstOrigin(Arg(ad, 5)))
+		if h == nil {
+			h = globalFuncValue(c.P, firstOrigin(Arg(ad, 5)))
+		}
 		c.Report(passthroughClosure(h), P+".O2", "FANIN-PASSTHROUGH", fn, ad.Pos(), "AddHandler", "the handler returns exactly the consumed message and no error")
 	}
 }
@@ -1034,4 +1085,49 @@ func edgeIs(from, to *ssa.BasicBlock, es []Edge) bool {
 		}
 	}
 	return false
+}
+
+// globalFuncValue: v is a load of a package-level variable of the analysed module that is initialised with a
+// function (literal) and never assigned anywhere else in the module: that function.
+func globalFuncValue(p *Prog, v ssa.Value) *ssa.Function {
+	u, ok := v.(*ssa.UnOp)
+	if !ok || u.Op != token.MUL {
+		return nil
+	}
+	g, ok := u.X.(*ssa.Global)
+	if !ok || g.Pkg == nil || !strings.HasPrefix(g.Pkg.Pkg.Path(), p.Cfg.Prefix) {
+		return nil
+	}
+	var fn *ssa.Function
+	n := 0
+	for _, rel := range p.ModuleRel() {
+		sp := p.Pkg(rel)
+		if sp == nil {
+			continue
+		}
+		fns := p.SrcFuncsRaw(rel)
+		if init := sp.Func("init"); init != nil {
+			have := false
+			for _, f := range fns {
+				if f == init {
+					have = true
+				}
+			}
+			if !have {
+				fns = append(fns, init)
+			}
+		}
+		for _, f := range fns {
+			rawInstrs(f, func(in ssa.Instruction) {
+				if st, isSt := in.(*ssa.Store); isSt && st.Addr == ssa.Value(g) {
+					n++
+					fn = FuncOfValue(st.Val)
+				}
+			})
+		}
+	}
+	if n != 1 {
+		return nil
+	}
+	return fn
 }
